@@ -5,5 +5,5 @@ import "embed"
 // Sources holds this package's own source files; the driver copies them into
 // every scratch module so that emitted code is linked against the same harness.
 //
-//go:embed value.go ref.go run.go fault.go update.go embed.go errs/errs.go
+//go:embed value.go ref.go run.go fault.go update.go deflt.go embed.go errs/errs.go
 var Sources embed.FS
